@@ -223,6 +223,29 @@ def c03a(chk):
                 why = "None outcome of checked_sub(1) returns None and never reaches Some(..): %s" % ok
         upd = an.each_element_update(chk.prog, h)
         whole = upd is not None and upd["kind"] == "loop" and [a for a in upd["adaptors"] if a not in ("into_iter", "deref_mut")] == ["iter_mut"]
+        if not cs:
+            # the same as a chain: shape.0.into_iter().map(|x| x.checked_sub(1)).collect::<Option<Vec<usize>>>().map(Self) - collecting into
+            # an Option is None as soon as one element is None
+            coll = [(b, t) for b, t in h.calls() if callee_is(t["callee"], N.COLLECT) and "core::option::Option<alloc::vec::Vec<usize>>" in " ".join(t["callee"].get("args", []))]
+            its_ = [it for it in IT.iterations(chk.prog, h) if it.kind == "closure" and it.consumer == "map"]
+            if len(coll) == 1 and len(its_) == 1:
+                it = its_[0]
+                ch = IT.receiver_chain(h, coll[0][1]["args"][0])
+                g_ = it.body
+                cs2 = [(b, t) for b, t in g_.calls() if (t["callee"].get("path") or "") == "core::num::<impl usize>::checked_sub"]
+                direct = len(cs2) == 1 and len(list(g_.calls())) == 1 and const_val(cs2[0][1]["args"][1]) == 1 and an.call_dest_local(cs2[0][1]) == 0 and it.elem_path(cs2[0][1]["args"][0]) == ()
+                src = ch[-1][1]
+                over_shape = IT.chain_get(ch, "map") is it.term and [n for n in IT.chain_names(ch) if n not in ("map", "into_iter", "iter", "copied", "cloned")] == [] and src is not None and (src[0] == 1 or 1 in h.slice_locals(src[0], through_calls=False)[0])
+                # the collected Option is what is returned (through Option::map(Self), or as it is)
+                d0 = h.defs.get(0, [])
+                ret = False
+                if len(d0) == 1 and d0[0][0] == "call" and callee_is(d0[0][2]["callee"], N.OPT_MAP):
+                    a0 = op_local(d0[0][2]["args"][0])
+                    ret = a0 is not None and h.copy_root(a0) == an.call_dest_local(coll[0][1]) and d0[0][2]["args"][1]["k"] == "const" and (d0[0][2]["args"][1].get("fn") or "").endswith("count::Count")
+                ok = direct and ret
+                whole = over_shape
+                why = "map(|x| x.checked_sub(1)) collected into Option<Vec<usize>>: closure is exactly the checked subtraction=%s, the collected Option is returned through map(Count)=%s" % (direct, ret)
+                chk.fns_analysed.add(g_.path)
         chk.ob("C03.a", "Count::try_from_shape/zero-axis->None", ok and whole, h.loc(), "every axis length n becomes n.checked_sub(1), a zero-length axis rejects the shape (%s; per element over the whole vector=%s)" % (why, whole))
 
 
